@@ -136,8 +136,8 @@ def run_tlc(module, cfg=None, *, cfg_text=None, workers=16, simulate=None, depth
                     res.errors.append(line)
                 if "Deadlock reached" in line:
                     res.violated.append("Deadlock")
-                if line.startswith('"') and not line.startswith('"{'):
-                    res.printed.append(line)
+                if (line.startswith('"') and not line.startswith('"{')) or line.startswith("<<"):
+                    res.printed.append(line)             # other PrintT output (strings, tuples)
         res.tail = "\n".join(tail[-60:])
         if rc == -9:
             res.errors.append(f"TLC timed out after {timeout}s")
